@@ -309,6 +309,9 @@ def to_iter(m, v):
         lo, hi = v.fields
         if is_sym(lo) or is_sym(hi): raise Unsupported("symbolic range")
         return RangeIt(lo, hi)
+    if isinstance(v, Agg) and v.ty == "RangeFrom":
+        if is_sym(v.fields[0]): raise Unsupported("symbolic range")
+        return RangeIt(v.fields[0], 1 << 64)
     if isinstance(v, Agg) and v.ty in ("RangeInclusive",):
         return RangeIt(v.fields[0], v.fields[1] + 1)
     if isinstance(v, BoxObj): return to_iter(m, v.fields[0])
@@ -380,7 +383,7 @@ def extend_container(m, r, xs):
 @generic("<_ as IntoIterator>::into_iter")
 def g_into_iter(m, path, v):
     dv = deref(v)
-    if isinstance(dv, Agg) and dv.ty not in ("Option", "Result", "Range", "RangeInclusive"):
+    if isinstance(dv, Agg) and dv.ty not in ("Option", "Result", "Range", "RangeInclusive", "RangeFrom"):
         if (dv.ty, "Iterator") in m.world.impl_pairs(): return v          # blanket `impl<I: Iterator> IntoIterator for I`
         if (dv.ty, "IntoIterator") in m.world.impl_pairs() and "impl " in path.split(" as ")[0]:
             return m.call_path(f"<{dv.ty} as IntoIterator>::into_iter", [v])
@@ -419,7 +422,7 @@ class CrateIt(It):
 
 def src_iter(m, path, v):
     dv = deref(v)
-    if isinstance(dv, Agg) and dv.ty not in ("Option", "Result", "Range", "RangeInclusive"):
+    if isinstance(dv, Agg) and dv.ty not in ("Option", "Result", "Range", "RangeInclusive", "RangeFrom"):
         from machine import find_as
         p = path.strip()
         return CrateIt(p[1:find_as(p)], v)
@@ -474,7 +477,7 @@ def i_fuse(m, path, it): return src_iter(m, path, it)
 
 def to_iter_any(m, v):
     dv = deref(v)
-    if isinstance(dv, Agg) and dv.ty not in ("Option", "Result", "Range", "RangeInclusive"):
+    if isinstance(dv, Agg) and dv.ty not in ("Option", "Result", "Range", "RangeInclusive", "RangeFrom"):
         # IntoIterator for a crate type: run its into_iter
         return to_iter(m, m.call_path(f"<{dv.ty} as IntoIterator>::into_iter", [v]))
     return to_iter(m, v)
